@@ -315,6 +315,9 @@ class SsbScriptCompilerListener(SsbScriptListener):
     def _enlarge_routine_info(self) -> None:
         if self._active_routine_id < 0:
             raise SsbCompilerError(_("The ID of a routine must not be negative."))
+        if self._active_routine_id < len(self.routine_infos) and self.routine_infos[self._active_routine_id] is not None:
+            # (the second definition would silently replace the first one, jumps into it would be left dangling)
+            raise SsbCompilerError(_("A routine with this ID is already defined: ") + str(self._active_routine_id))
         if len(self.routine_infos) - 1 < self._active_routine_id:
             needed = self._active_routine_id - len(self.routine_infos) + 1
             for i in range(0, needed):
